@@ -2,6 +2,7 @@
 from __future__ import annotations
 
 import math
+import numpy as np
 from typing import Any, Dict, List, Sequence, Tuple
 
 from perception_eval.common.evaluation_task import EvaluationTask
@@ -55,6 +56,9 @@ def looser_chain(mode: MatchingMode, scores: List[float], r) -> List[float]:
         picks.append(r.random() if iou else r.uniform(0.0, 10.0))
     picks += [0.0, 1.0] if iou else [0.0, 1e6]
     picks = sorted(set(round(p, 9) for p in picks))
+    if r.random() < 0.25:
+        # values exactly representable in single precision, so that the chain can also be spelled with numpy scalars
+        picks = sorted(set(float(np.float32(p)) for p in picks))
     return list(reversed(picks)) if iou else picks
 
 
@@ -77,6 +81,10 @@ def chain_on_results(ctx: Ctx, results: List[Any], gts: List[Any], mode: Matchin
     flips = 0
     for t in chain:
         thr_list = [t] * n_lab
+        if float(np.float32(t)) == t:
+            # the same numbers as numpy scalars (what indexing a numpy array of thresholds yields): real numbers like any other
+            thr_list = [np.float32(t) if k % 2 == 0 else (np.int64(t) if float(t).is_integer() and abs(t) < 2**31 else t) for k in range(n_lab)]
+            ctx.count("C08.numpy_scalar_thresholds")
         correct = []
         for res in results:
             thr = matching.label_threshold(res.ground_truth_object if res.ground_truth_object is not None else res.estimated_object, LABELS, thr_list)
